@@ -117,12 +117,12 @@ ITEMS.update({
         file='crates/vibesql-executor/src/delete/executor.rs', path='impl DeleteExecutor::fn extract_primary_key_lookup', ret='res',
         rewrites=_TY + [_AS_REF, ('lit', 'use vibesql_ast::{BinaryOperator, Expression};', '', 1),
                         ('lit', 'fn extract_primary_key_lookup(', 'fn extract_primary_key_lookup_delete(', 1),
-                        ('re', r'return Some\(vec!\[value\.clone\(\)\]\);', 'let ghost lit = *value; let k = vec![value.clone()]; proof { assert(k@ =~= seq![lit]); assert(pk_eq(*where_expr, schema, lit)); } return Some(k);', 2)],
+                        ('re', r'return Some\(vec!\[([^;]*)\]\);', r'let k = vec![\1]; proof { if k@.len() == 1 { assert(k@ =~= seq![k@[0]]); } } return Some(k);', 2)],
         contract=_EXTRACT_POST),
     'update_extract_primary_key_lookup': dict(
         file='crates/vibesql-executor/src/update/row_selector.rs', path="impl<'a> RowSelector<'a>::fn extract_primary_key_lookup", ret='res',
         rewrites=_TY + [_AS_REF, ('lit', 'fn extract_primary_key_lookup(', 'fn extract_primary_key_lookup_update(', 1),
-                        ('re', r'return Some\(vec!\[value\.clone\(\)\]\);', 'let ghost lit = *value; let k = vec![value.clone()]; proof { assert(k@ =~= seq![lit]); assert(pk_eq(*where_expr, schema, lit)); } return Some(k);', 2)],
+                        ('re', r'return Some\(vec!\[([^;]*)\]\);', r'let k = vec![\1]; proof { if k@.len() == 1 { assert(k@ =~= seq![k@[0]]); } } return Some(k);', 2)],
         contract=_EXTRACT_POST),
     'select_rows': dict(
         file='crates/vibesql-executor/src/update/row_selector.rs', path="impl<'a> RowSelector<'a>::fn select_rows", ret='res',
